@@ -37,6 +37,7 @@ PLAN = {
 
 G = px.base_globals()
 _env_cache = {}
+ERR_EXAMPLES = {}
 
 COMPOUND = ('Un', 'Bin', 'Bool', 'Cmp', 'IfExp', 'Lambda')
 
@@ -357,8 +358,16 @@ def check_end_to_end(ctx, c, pts, db, r, names, space, plan, index):
                     ctx.mismatch(signature('query', features(e), form), '%s query "%s" with %s: Python raises %s for the outer expression, pony bound %r' % (
                         form, text, plain[i], exp[i][1], got), rep)
                 continue
+            if outcome == 'error' and got in ('ExprEvalError', 'NameError', 'SyntaxError'):
+                # pony's own evaluation of the outer expression fails where Python yields a value: not "as Python would"
+                c['e2e_mismatch'] += 1
+                ctx.mismatch(signature('query', features(e), form), '%s query "%s" with %s: Python evaluates the outer expression to %s, pony\'s evaluation of it '
+                             'raises %s' % (form, text, plain[i], px.show(exp[i]), got), rep)
+                continue
             if outcome == 'error':
-                c['e2e_error_instead_of_value_%s' % got] += 1       # accepted: an error, not a different value
+                c['e2e_error_instead_of_value_%s' % got] += 1       # accepted: the query is refused (decompiler, translator), no different value is used
+                if got not in ERR_EXAMPLES:
+                    ERR_EXAMPLES[got] = '%s query "%s" with %s' % (form, text, plain[i])
                 continue
             if shape == 'eq' and params == ():
                 ok = got == () and 'IS NULL' in sql
@@ -425,6 +434,7 @@ def run(ctx):
         'queries_raised_where_python_raises': c['e2e_ok_error'],
         'queries_mismatching_all_known': c['e2e_mismatch'],
         'queries_error_instead_of_value': {k[len('e2e_error_instead_of_value_'):]: v for k, v in c.items() if k.startswith('e2e_error_instead_of_value_')},
+        'queries_error_examples': dict(ERR_EXAMPLES),
         'queries_skipped': {k[4:]: v for k, v in c.items() if k.startswith('e2e_skipped') or k.startswith('e2e_generator_form_skipped') or k == 'e2e_value_not_a_parameter'},
         'selfcheck_points_spec_vs_cpython': pts['selfcheck'],
         'extractors_cache_entries_at_end': len(asttranslation.extractors_cache),
